@@ -33,11 +33,21 @@ struct ContT
 {
     int id;
     std::vector<int> items;
-    explicit ContT(int i) : id(i) {}
+    explicit ContT(int i) : id(i), items{-7} {}      // never empty: "appended" means AFTER what is already there
     ContT(const ContT& o) : id(o.id), items(o.items) { static_assert(Copyable, "container copied"); ++copies; }
     ContT(ContT&& o) noexcept : id(o.id), items(std::move(o.items)) { ++moves; }
     void push_back(const E& e) { items.push_back(e.id); }
     void emplace_back(E&& e) { items.push_back(e.id); }
+    // the rest of a sequence container's interface, so that a helper using another member still compiles and is judged
+    // by what it does to the contents
+    using iterator = std::vector<int>::iterator;
+    iterator begin() { return items.begin(); }
+    iterator end() { return items.end(); }
+    iterator insert(iterator at, const E& e) { return items.insert(at, e.id); }
+    iterator insert(iterator at, E&& e) { return items.insert(at, e.id); }
+    template<typename... A> iterator emplace(iterator at, E&& e) { return items.insert(at, e.id); }
+    void push_front(const E& e) { items.insert(items.begin(), e.id); }
+    size_t size() const { return items.size(); }
 };
 struct Wrap
 {
